@@ -8,16 +8,47 @@ from ..core import bytesnf as B
 from .common import where
 
 
+def return_aliases(fn):
+    """Locals whose whole value is moved into the return place (`_0 = move _x`, transitively): after a helper has
+    been spliced in, the helper's own return slot is such a local."""
+    al = {0}
+    changed = True
+    while changed:
+        changed = False
+        for b in fn.cfg.reachable:
+            for s in fn.blocks[b]["stmts"]:
+                if s["k"] == "assign" and s["place"].get("l") in al and "p" not in s["place"] and "use" in s["rv"]:
+                    op = s["rv"]["use"]
+                    pl = op.get("move") or op.get("copy")
+                    if pl and "p" not in pl and pl["l"] not in al:
+                        al.add(pl["l"])
+                        changed = True
+    return al
+
+
 def ok_blocks(fn, variant="Ok", adt="Result"):
-    """Blocks that build the success value in the return place."""
+    """Blocks that build the success value in the return place (or in a local that is moved into it)."""
     out = []
+    al = return_aliases(fn)
     for b in sorted(fn.cfg.reachable):
         for s in fn.blocks[b]["stmts"]:
-            if s["k"] == "assign" and s["place"].get("l") == 0 and "p" not in s["place"]:
+            if s["k"] == "assign" and s["place"].get("l") in al and "p" not in s["place"]:
                 agg = s["rv"].get("agg")
                 if agg and agg.get("adt") == adt and agg.get("variant") == variant:
                     out.append(b)
     return out
+
+
+def ok_value(fn, ev, b, variant="Ok", adt="Result"):
+    """The Result value built in block b (see ok_blocks), read from the local it was built in."""
+    al = return_aliases(fn)
+    for s in fn.blocks[b]["stmts"]:
+        if s["k"] == "assign" and s["place"].get("l") in al and "p" not in s["place"]:
+            agg = s["rv"].get("agg")
+            if agg and agg.get("adt") == adt and agg.get("variant") == variant:
+                st = ev.exit_state.get(b) or {}
+                return st.get(s["place"]["l"])
+    return (ev.exit_state.get(b) or {}).get(0)
 
 
 def err_blocks(fn):
